@@ -5,6 +5,9 @@ package symexec
 // Natively the same verifnd functions write real files under a temporary directory.
 
 import (
+	"io/fs"
+	"path/filepath"
+	"testing/fstest"
 	"golang.org/x/tools/go/ssa"
 	"time"
 	"encoding/json"
@@ -25,6 +28,21 @@ func (i *interpreter) vfs() map[string]*vfsEntry {
 		i.vfsFiles = map[string]*vfsEntry{"/vfs": {isDir: true}}
 	}
 	return i.vfsFiles
+}
+
+// vfsStat implements os.Stat / os.Lstat over the in-engine file system.
+func (i *interpreter) vfsStat(fr *frame, path string) value {
+	path = strings.TrimSuffix(path, "/")
+	e, ok := i.vfs()[path]
+	if !ok {
+		return tuple{iface{}, i.osError(fr, "stat "+path+": no such file or directory")}
+	}
+	nd := i.prog.ImportedPackage(strings.TrimSuffix(ndPkg, "."))
+	if nd == nil || nd.Type("FileInf") == nil {
+		panic(pathAbort{"unsupported: os.Stat needs verifnd.FileInf"})
+	}
+	name := path[strings.LastIndex(path, "/")+1:]
+	return tuple{iface{t: nd.Type("FileInf").Type(), v: structure{name, e.isDir, int64(len(e.content))}}, iface{}}
 }
 
 func (i *interpreter) osError(fr *frame, msg string) value {
@@ -69,6 +87,34 @@ func init() {
 				panic(pathAbort{"unsupported: os.Chdir to a directory other than the VFS root"})
 			}
 			return iface{}, true
+		},
+		"os.Stat": func(i *interpreter, fr *frame, a []value) (value, bool) { return i.vfsStat(fr, strArg(a[0])), true },
+		"os.Lstat": func(i *interpreter, fr *frame, a []value) (value, bool) { return i.vfsStat(fr, strArg(a[0])), true },
+		"path/filepath.Glob": func(i *interpreter, fr *frame, a []value) (value, bool) {
+			// the real matcher (io/fs.Glob has filepath.Glob's semantics) over the in-engine files
+			m := fstest.MapFS{}
+			for p, e := range i.vfs() {
+				if p == "/" || !strings.HasPrefix(p, "/") {
+					continue
+				}
+				if e.isDir {
+					m[p[1:]] = &fstest.MapFile{Mode: fs.ModeDir | 0o755}
+				} else {
+					m[p[1:]] = &fstest.MapFile{Data: []byte(e.content)}
+				}
+			}
+			pat := strArg(a[0])
+			if !strings.HasPrefix(pat, "/") {
+				panic(pathAbort{"unsupported: filepath.Glob on a relative pattern"})
+			}
+			res, err := fs.Glob(m, pat[1:])
+			if err != nil {
+				return tuple{[]value(nil), i.mkError(fr, filepath.ErrBadPattern)}, true
+			}
+			for k := range res {
+				res[k] = "/" + res[k]
+			}
+			return tuple{strSlice(res), iface{}}, true
 		},
 		"os.ReadDir": func(i *interpreter, fr *frame, a []value) (value, bool) {
 			dir := strings.TrimSuffix(strArg(a[0]), "/")
